@@ -32,6 +32,7 @@ type Graph struct {
 	out    map[int][]int
 	parent map[int]int // state -> edge index that first reaches it (BFS), -1 for initial
 	Inits  []int
+	pos    map[*Edge]int
 }
 
 func Load(path string) (*Graph, error) {
@@ -137,4 +138,26 @@ func (g *Graph) Behaviours() [][]*Edge {
 		out = append(out, cur)
 	}
 	return out
+}
+
+// Sibling returns another transition leaving the same state as e that satisfies ok.
+func (g *Graph) Sibling(e *Edge, ok func(*Edge) bool) *Edge {
+	for _, ei := range g.out[e.pre] {
+		o := g.Edges[ei]
+		if o != e && ok(o) {
+			return o
+		}
+	}
+	return nil
+}
+
+// IndexOf returns the position of e in g.Edges.
+func (g *Graph) IndexOf(e *Edge) int {
+	if g.pos == nil {
+		g.pos = map[*Edge]int{}
+		for i, x := range g.Edges {
+			g.pos[x] = i
+		}
+	}
+	return g.pos[e]
 }
